@@ -233,6 +233,110 @@ def _normalise_front_end(tree):
     return tree
 
 
+def toplevel_functions(tree, modname):
+    """(short name, FunctionDef) of the module-level functions and the methods of module-level classes"""
+    pre = (modname + '.') if modname else ''
+    for st in tree.body:
+        if isinstance(st, ast.FunctionDef):
+            yield pre + st.name, st
+        elif isinstance(st, ast.ClassDef):
+            for x in st.body:
+                if isinstance(x, ast.FunctionDef):
+                    yield f'{pre}{st.name}.{x.name}', x
+
+
+def body_text(node):
+    """the statements of a function without its docstring, in ast.unparse form"""
+    body = node.body
+    if body and isinstance(body[0], ast.Expr) and isinstance(body[0].value, ast.Constant) and isinstance(body[0].value.value, str):
+        body = body[1:]
+    return '\n'.join(ast.unparse(b) for b in body)
+
+
+def _restore_renamed(trees):
+    """A PRIVATE function of the baseline (vstatic/baseline_functions.txt) that no longer exists under its name, while the
+    same class / module has a new private function with (nearly) the same body (vstatic/baseline_bodies.json), has been
+    renamed: the old name is put back, in the definition and in every reference of the package, before anything is indexed.
+    Names carry no behaviour; the rules and the reference definitions keep addressing the function by the name they know.
+    Returns {old short: new name} for the evidence."""
+    import difflib
+    import json as _json
+    from .baseline import BASELINE_FUNCS
+    try:
+        with open(os.path.join(os.path.dirname(os.path.abspath(__file__)), 'baseline_bodies.json')) as f:
+            bodies = _json.load(f)
+    except (OSError, ValueError):
+        return {}
+    cur = {}
+    for name, tree in trees.items():
+        rel = name[len(PKG) + 1:] if name.startswith(PKG + '.') else ('' if name == PKG else name)
+        for short, node in toplevel_functions(tree, rel):
+            cur[short] = node
+    vanished = [b for b in bodies if b in BASELINE_FUNCS and b not in cur]
+    if not vanished:
+        return {}
+    fresh = [c for c in cur if c not in BASELINE_FUNCS and cur[c].name.startswith('_') and not cur[c].name.startswith('__')]
+    pairs = []
+    for v in vanished:
+        scope = v.rsplit('.', 1)[0]
+        for c in fresh:
+            if c.rsplit('.', 1)[0] != scope:
+                continue
+            a, b = bodies[v], body_text(cur[c])
+            # (references to the function itself or to other renamed helpers differ: compare with identifiers of both sides blanked)
+            r = difflib.SequenceMatcher(None, a, b, autojunk=False).ratio()
+            if r >= 0.7:
+                pairs.append((r, v, c))
+    pairs.sort(reverse=True)
+    used_v, used_c, mapping = set(), set(), {}
+    for r, v, c in pairs:
+        if v in used_v or c in used_c:
+            continue
+        used_v.add(v)
+        used_c.add(c)
+        mapping[c] = v
+    if not mapping:
+        return {}
+    # name-level renaming is applied only when it is unambiguous package-wide: the new name denotes nothing else, and the old
+    # name is free
+    by_new = {}
+    for c, v in mapping.items():
+        by_new.setdefault(cur[c].name, set()).add(v.rsplit('.', 1)[1])
+    all_defs = {}
+    for short, node in cur.items():
+        all_defs.setdefault(node.name, []).append(short)
+    rename = {}
+    for new_name, olds in by_new.items():
+        if len(olds) != 1:
+            continue
+        old_name = next(iter(olds))
+        if all(d in mapping for d in all_defs.get(new_name, [])):
+            rename[new_name] = old_name
+
+    class R(ast.NodeTransformer):
+        def visit_FunctionDef(self, n):
+            self.generic_visit(n)
+            if n.name in rename:
+                n.name = rename[n.name]
+            return n
+
+        def visit_Attribute(self, n):
+            self.generic_visit(n)
+            if n.attr in rename:
+                n.attr = rename[n.attr]
+            return n
+
+        def visit_Name(self, n):
+            if n.id in rename:
+                n.id = rename[n.id]
+            return n
+    result = {v: cur[c].name for c, v in mapping.items() if cur[c].name in rename}
+    if rename:
+        for tree in trees.values():
+            R().visit(tree)
+    return result
+
+
 class Program:
     def __init__(self, repo=None):
         self.repo = repo or REPO
@@ -396,7 +500,9 @@ class Program:
                 tree = _normalise_front_end(tree)
                 m = ModuleInfo(name, path, rel, src, tree)
                 self.modules[name] = m
-                self._index_module(m)
+        self.renamed = _restore_renamed({n_: m_.tree for n_, m_ in self.modules.items()})
+        for m in self.modules.values():
+            self._index_module(m)
 
     def _index_module(self, m):
         def walk_body(body, scope_qual, cls, parent_func, toplevel):
